@@ -3,3 +3,4 @@ NEXT GenNext
 CONSTANTS
   N = 3
   Labels = {"none", "dep", "unselected"}
+  Fill = 1
